@@ -6,6 +6,8 @@ first time while the cell holds its own value.  Each must compute with the value
 the cell held then, whatever was defined and evaluated before it -- which a
 fresh process confirms through the `one_*` twins.
 """
+import gc
+
 import fpy2 as fp
 
 CTXS = {
@@ -65,9 +67,157 @@ def one_third(name):
     return third
 
 
+def make_scaled_rt(vals, x, ctx):
+    # the same, but every definition is evaluated through an interpreter of its own that is dropped
+    # with it: nothing keeps the definition alive, so the next one may well reuse its address
+    out = []
+    for i, S in enumerate(vals):
+        @fp.fpy
+        def scaled(x: fp.Real) -> fp.Real:
+            with fp.FP32:
+                return x * S + 1
+        if i % 2 == 0:
+            out.append(scaled.with_rt(fp.BytecodeInterpreter())(x, ctx=ctx))
+        else:
+            out.append(scaled(x, ctx=ctx))
+        del scaled
+        gc.collect()
+    return out
+
+
+def make_third_rt(names, x, ctx):
+    out = []
+    for name in names:
+        C = CTXS[name]
+
+        @fp.fpy
+        def third(x: fp.Real) -> fp.Real:
+            with C:
+                y = x / 3
+            return y
+        rt = fp.BytecodeInterpreter()
+        out.append(third.with_rt(rt)(x, ctx=ctx))
+        del third, rt
+        gc.collect()
+    return out
+
+
+def make_poly_rt(coeffs, x, ctx):
+    # different texts of the same size, one after the other, each on a throw-away interpreter
+    out = []
+    for k in coeffs:
+        if k > 1:
+            @fp.fpy
+            def term(x: fp.Real) -> fp.Real:
+                with fp.FP32:
+                    return x * k - 2
+        else:
+            @fp.fpy
+            def term(x: fp.Real) -> fp.Real:
+                with fp.FP32:
+                    return x + k * 4
+        out.append(term.with_rt(fp.BytecodeInterpreter())(x, ctx=ctx))
+        del term
+        gc.collect()
+    return out
+
+
+def one_poly(v):
+    k = v
+    if k > 1:
+        @fp.fpy
+        def term(x: fp.Real) -> fp.Real:
+            with fp.FP32:
+                return x * k - 2
+    else:
+        @fp.fpy
+        def term(x: fp.Real) -> fp.Real:
+            with fp.FP32:
+                return x + k * 4
+    return term
+
+
+def _mk_gain(k):
+    @fp.fpy
+    def gain(x: fp.Real) -> fp.Real:
+        with fp.FP32:
+            return k * x + 1
+    return gain
+
+
+def _mk_shift(k):
+    @fp.fpy
+    def shift(x: fp.Real) -> fp.Real:
+        with fp.FP32:
+            return x - k * 3
+    return shift
+
+
+def make_gain_fn(vals, x, ctx):
+    # closures from a factory function, each evaluated on an interpreter of its own and dropped with it
+    out = []
+    for k in vals:
+        f = _mk_gain(k).with_rt(fp.BytecodeInterpreter())
+        out.append(f(x, ctx=ctx))
+        del f
+        gc.collect()
+    return out
+
+
+def one_gain(v):
+    return _mk_gain(v)
+
+
+def _mk_plain(k):
+    @fp.fpy
+    def plain(x: fp.Real) -> fp.Real:
+        return k * x
+    return plain
+
+
+def make_plain_fn(vals, x, ctx):
+    # whether a freed definition's address is taken by the next one depends on what is allocated in
+    # between: this variant computes under the caller's context and goes round twice
+    out = []
+    for k in list(vals) + list(vals):
+        f = _mk_plain(k).with_rt(fp.BytecodeInterpreter())
+        out.append(f(x, ctx=ctx))
+        del f
+        gc.collect()
+    return out[len(vals):]
+
+
+def one_plain(v):
+    return _mk_plain(v)
+
+
+def make_mixed_fn(vals, x, ctx):
+    # a closure evaluated on a private interpreter and dropped, then a *different* one on the default interpreter
+    out = []
+    for k in vals:
+        if k in (2.0, 0.5, 1.25):
+            f = _mk_gain(k).with_rt(fp.BytecodeInterpreter())
+        else:
+            f = _mk_shift(k)
+        out.append(f(x, ctx=ctx))
+        del f
+        gc.collect()
+    return out
+
+
+def one_mixed(v):
+    return _mk_gain(v) if v in (2.0, 0.5, 1.25) else _mk_shift(v)
+
+
 SIG = {}
 DERIVABLE = {}
 FACTORIES = {
     'scaled': ('make_scaled', 'one_scaled', [2.0, 3.0, 0.5, 7.0, 1.25]),
     'third': ('make_third', 'one_third', ['FP16', 'FP32', 'FP64', 'RTZ16', 'RTP16']),
+    'scaled_rt': ('make_scaled_rt', 'one_scaled', [2.0, 3.0, 0.5, 7.0, 1.25]),
+    'third_rt': ('make_third_rt', 'one_third', ['FP16', 'FP32', 'FP64', 'RTZ16', 'RTP16']),
+    'poly_rt': ('make_poly_rt', 'one_poly', [2.0, 0.5, 3.0, 0.25, 5.0]),
+    'gain_fn': ('make_gain_fn', 'one_gain', [2.0, 3.0, 0.5, 7.0, 1.25]),
+    'plain_fn': ('make_plain_fn', 'one_plain', [2.0, 3.0, 0.5, 7.0, 1.25]),
+    'mixed_fn': ('make_mixed_fn', 'one_mixed', [2.0, 3.0, 0.5, 7.0, 1.25]),
 }
